@@ -44,6 +44,73 @@ def stub_sa(is_initiator):
     return sa
 
 
+def ref_prfplus(h, key, seed, size):
+    out, t, i = b'', b'', 1
+    while len(out) < size:
+        t = pyhmac.new(key, t + seed + bytes([i]), h).digest()
+        out += t
+        i += 1
+    return out[:size]
+
+
+def ref_ike_keys(prf, integ, keybits, ni, nr, spi_i, spi_r, secret, old):
+    """RFC 7296 2.14 / 2.18, written from the RFC text with hmac/hashlib only"""
+    h, hl = PRFS[prf][1], PRFS[prf][2]
+    skeyseed = pyhmac.new(ni + nr, secret, h).digest() if not old else pyhmac.new(old, secret + ni + nr, h).digest()
+    il, el = INTEGS[integ][1], keybits // 8
+    km = ref_prfplus(h, skeyseed, ni + nr + spi_i + spi_r, 3 * hl + 2 * il + 2 * el)
+    out, off = [], 0
+    for n in (hl, il, il, el, el, hl, hl):        # SK_d | SK_ai | SK_ar | SK_ei | SK_er | SK_pi | SK_pr
+        out.append(km[off:off + n]); off += n
+    return out
+
+
+def ref_child_keys(prf, integ, encr_len, sk_d, seed):
+    """RFC 7296 2.17: KEYMAT = prf+(SK_d, [g^ir |] Ni | Nr); encryption before integrity, initiator first"""
+    h = PRFS[prf][1]
+    il = INTEGS[integ][1]
+    km = ref_prfplus(h, sk_d, seed, 2 * il + 2 * encr_len)
+    ei, ai, er, ar = km[:encr_len], km[encr_len:encr_len + il], km[encr_len + il:2 * encr_len + il], km[2 * encr_len + il:]
+    return ei, ai, er, ar
+
+
+class ChosenKeys:
+    """makes crypto.MODPDH / crypto.ECDH draw a private key of our choosing (library objects only are replaced)"""
+
+    def __init__(self):
+        self.x = None
+        self.real_dh, self.real_ec = C.dh, C.ec
+
+    def __enter__(self):
+        import types
+        me = self
+        rdh, rec = self.real_dh, self.real_ec
+
+        class PN:
+            def __init__(self, p, g):
+                self.real = rdh.DHParameterNumbers(p, g)
+                self.p, self.g = p, g
+
+            def parameters(self, backend=None):
+                pn = self
+
+                class Params:
+                    def generate_private_key(self_inner):
+                        x = me.x
+                        pub = rdh.DHPublicNumbers(pow(pn.g, x, pn.p), pn.real)
+                        return rdh.DHPrivateNumbers(x, pub).private_key()
+                return Params()
+        C.dh = types.SimpleNamespace(DHParameterNumbers=PN, DHPublicNumbers=lambda y, pn: rdh.DHPublicNumbers(y, pn.real))
+        C.ec = types.SimpleNamespace(
+            generate_private_key=lambda curve, backend=None: rec.derive_private_key(me.x, curve),
+            SECP256R1=rec.SECP256R1, SECP384R1=rec.SECP384R1, SECP521R1=rec.SECP521R1, ECDH=rec.ECDH,
+            EllipticCurvePublicNumbers=rec.EllipticCurvePublicNumbers)
+        return self
+
+    def __exit__(self, *a):
+        C.dh, C.ec = self.real_dh, self.real_ec
+
+
 def run(ctx):
     res = Result()
     rng = ctx.rng
@@ -107,6 +174,10 @@ def run(ctx):
                     args = '%s %d %d %d %s %s %s %s %s %s' % (prf, PRFS[prf][2], INTEGS[integ][1], keybits // 8, hx(ni), hx(nr),
                                                              hx(spi_i), hx(spi_r), hx(secret), hx(old) if old else 'none')
                     both('ikekeys ' + args, 'speckeys ' + args, 'ok ' + kr(k))
+                    if list(k) != ref_ike_keys(prf, integ, keybits, ni, nr, spi_i, spi_r, secret, old):
+                        res.fail('sk-keys-differ:%s' % ('rekey' if old else 'initial'),
+                                 'SKEYSEED / SK_* differ from RFC 7296 2.14%s computed independently' % (' / 2.18' if old else ''),
+                                 {'args': 'prf hl il el Ni Nr SPIi SPIr g^ir SK_d(old): ' + args, 'implementation': kr(k)})
                     res.sample({'op': ('ikekeys ' + args)[:200], 'sk_d': k.sk_d.hex()}, cap=2)
                     # role assignment
                     mine, peer = sa.my_crypto, sa.peer_crypto
@@ -122,6 +193,9 @@ def run(ctx):
                         res.evaluations += 1
                         cargs = '%s %d %d %s %s' % (prf, INTEGS[integ][1], keybits // 8 if proto == 3 else 0, hx(k.sk_d), hx(seed))
                         both('childkeys ' + cargs, 'specchildkeys ' + cargs, 'ok ' + kr(ck))
+                        if (ck.sk_ei, ck.sk_ai, ck.sk_er, ck.sk_ar) != ref_child_keys(prf, integ, keybits // 8 if proto == 3 else 0, k.sk_d, seed):
+                            res.fail('child-keymat-differs', 'CHILD_SA KEYMAT differs from RFC 7296 2.17 computed independently',
+                                     {'args': 'prf il el SK_d seed: ' + cargs, 'implementation': kr(ck)})
     ops.append('rolekeys 1'); expect.append('03 01 05 04 02 06')
     ops.append('rolekeys 0'); expect.append('04 02 06 03 01 05')
     # 3. Diffie-Hellman: fixed-width encodings, group constants, agreement, leading zeros
@@ -162,6 +236,43 @@ def run(ctx):
                 if a.shared_secret != s.to_bytes(a.key_len, 'big'):
                     res.fail('dh-leading-zeros', 'leading zero octets of the shared secret not preserved', {'group': g, 'peer': hex(y)})
                 break
+    # public values with leading zero octets, forced by choosing the private key (2^x < p needs no reduction)
+    with ChosenKeys() as ck_:
+        for g in groups:
+            p = int(C.MODPDH._group_dict[g], 16)
+            width = (p.bit_length() + 7) // 8
+            for x in (2, 9, 1000, width * 8 - 17, rng.randrange(2, width * 8 - 8)):
+                ck_.x = x
+                a = C.MODPDH(g)
+                res.evaluations += 1
+                res.nontrivial.add(('modp-chosen', g, x))
+                res.count('dh:leading-zero-public')
+                if bytes(a.public_key) != pow(2, x, p).to_bytes(width, 'big'):
+                    res.fail('dh-public-width', 'MODP public value with leading zero octets is not the fixed-width encoding '
+                             '(%d octets for a %d-octet group)' % (len(a.public_key), width), {'group': g, 'private_key': x})
+                ops.append('modexp %d 02 %s' % (g, hx(x.to_bytes((x.bit_length() + 7) // 8 or 1, 'big'))))
+                expect.append(hx(pow(2, x, p).to_bytes(width, 'big')))
+                # and the peer's view of it
+                ck_.x = rng.randrange(2, p - 2)
+                b = C.MODPDH(g)
+                b.compute_secret(a.public_key)
+                if b.shared_secret != pow(pow(2, x, p), ck_.x, p).to_bytes(width, 'big'):
+                    res.fail('dh-secret', 'shared secret != fixed-width g^ab mod p', {'group': g, 'private_keys': [x, ck_.x]})
+        for g, width in ((19, 32), (20, 48), (21, 66)):
+            found = 0
+            for d in range(1, 1500):
+                ck_.x = d
+                a = C.ECDH(g)
+                pn = a._private_key.public_key().public_numbers()
+                if pn.x >> (width * 8 - 8) == 0 or pn.y >> (width * 8 - 8) == 0 or (g == 21 and found < 1):
+                    found += 1
+                    res.evaluations += 1
+                    res.count('dh:ecp-leading-zero-public')
+                    if bytes(a.public_key) != pn.x.to_bytes(width, 'big') + pn.y.to_bytes(width, 'big') or a.key_len != width:
+                        res.fail('ecdh-encoding', 'ECP public value with a leading zero octet is not x||y fixed width',
+                                 {'group': g, 'private_key': d})
+                    if found >= 2:
+                        break
     for g, width in ((19, 32), (20, 48), (21, 66)):
         for rep in range(ctx.scale(2, 10)):
             a, b = C.ECDH(g), C.ECDH(g)
